@@ -10,6 +10,9 @@ MC = "model_checking"
 EX = "exploration"
 
 CHECKS = {
+ "C01": dict(level=MC, design="§4 C01", technique="bounded-exhaustive enumeration of Fun programs x inputs; every program compiled by the real pipeline, assembled (GNU as), linked with the repository's C driver, executed natively and compared with the reference machine R-FUN",
+    text="Every member of the bounded Fun program families x argument tuples is executed as a real x86-64 process; stdout bytes and exit status must equal what R-FUN prescribes. The twin run on the emulator provides the state/transition counts and validates the emulator against the CPU on every case.",
+    note="GNU as (after a syntax-only transliteration) stands in for yasm; R-FUN written from the property's statement of the source semantics and validated on the repository's examples"),
  "C06": dict(level=MC, design="§4 C06/C07/C08", technique="bounded-exhaustive enumeration of linear AxCut programs; every execution of the real x86-64 output on a text-level emulator checked against a reference machine",
     text="Every member of the bounded program space (k = 0..22 variables x statement kinds x operand placements x literal boundary set x object sizes 0..8) is compiled by the real code generator and executed to completion on an emulator of the printed text; print sequence and result are compared with the positional AxCut machine. States are statement boundaries; exhaustive within the stated bounds.",
     note="x86-64 emulator for the ~45 instruction forms the backend prints (cross-validated against native execution by C01); reference = positional AxCut machine (DESIGN App. A)"),
